@@ -18,6 +18,7 @@ RULE = (
     "string-sorted input is accepted; a store whose add()/satisfiable() raises before simplify() is called is "
     "counted and not judged.  Substr/IndexOf position constants of symbolic string trees are <= 255 (Z3's sequence "
     "rewriter unrolls over them and exhausts memory).  Non-trivial: operator node present; distinct by (route, descriptor) hash."
+    " Session 4 (solver shard): a second round of adds over single variables and another simplify (explicit or by a query)."
 )
 ASSUMPTIONS = ["equivalence of FP terms that Z3 cannot decide within the timeout is sampled over the hostile FP pool"]
 
